@@ -1,0 +1,196 @@
+//go:build verif
+
+package svg
+
+// Contracts for the deductive verifier in /verif (build tag verif: not compiled
+// into normal builds). Oracles: SVG 1.1 §8.3 (path data), §7.6 (transform attribute),
+// §7.8 (preserveAspectRatio); properties C07, C17, C18.
+
+// consumeNumber: the number starting at pos ends strictly after pos and inside the data
+// (progress: parsePoints terminates); an arc flag is exactly one character.
+//@ func consumeNumber
+//@   props C07 C18 C01
+//@   nopanic
+//@   requires 0 <= pos && pos < len(data)
+//@   ensures old(pos) < result && result <= len(data)
+//@   ensures isFlag ==> result == old(pos) + 1
+//@   loop 1 invariant old(pos) + 1 <= pos && pos <= len(data)
+//@   loop 1 decreases len(data) - pos
+
+//@ func parsePoints
+//@   props C07 C18 C01
+//@   nopanic
+//@   modifies anything
+//@   ensures result1 == nil ==> len(result0) >= len(points)
+//@   loop 1 invariant 0 <= pos && len(data) == len(dataPoints) && len(points) >= old(len(points))
+//@   loop 1 decreases len(data) - pos
+
+//@ func parseOpacity
+//@   props C07
+//@   nopanic
+//@   modifies nothing
+
+//@ func parseURL
+//@   props C07
+//@   nopanic
+//@   modifies nothing
+//@   ensures result1 == nil ==> result0 != nil
+
+//@ func parseURLFragment
+//@   props C07
+//@   nopanic
+//@   modifies nothing
+
+//@ func parseViewbox
+//@   props C07 C18
+//@   nopanic
+//@   modifies anything
+
+// ---------------------------------------------------------------------------
+// path data (elements_path.go)
+
+// quadratic Bézier (x0,x1,x2) and cubic Bézier (p0..p3) at parameter t
+func vBez2(p0, p1, p2, t Fl) Fl { return (1-t)*(1-t)*p0 + 2*(1-t)*t*p1 + t*t*p2 }
+func vBez3(p0, p1, p2, p3, t Fl) Fl {
+	return (1-t)*(1-t)*(1-t)*p0 + 3*(1-t)*(1-t)*t*p1 + 3*(1-t)*t*t*p2 + t*t*t*p3
+}
+
+// degree elevation: the cubic returned traces exactly the quadratic curve, for every t
+//@ func quadraticToCubic
+//@   props C18
+//@   nopanic
+//@   ensures result[2].x == x2 && result[2].y == y2
+//@   shows forallR(t, vBez3(x0, result[0].x, result[1].x, x2, t) == vBez2(x0, x1, x2, t))
+//@   shows forallR(t, vBez3(y0, result[0].y, result[1].y, y2, t) == vBez2(y0, y1, y2, t))
+//@   ensures result[0].x == x0 + (x1 - x0) * 2 / 3 && result[0].y == y0 + (y1 - y0) * 2 / 3
+//@   ensures result[1].x == x2 + (x1 - x2) * 2 / 3 && result[1].y == y2 + (y1 - y2) * 2 / 3
+
+// the reflection of r through p: p is the midpoint of r and the result
+//@ func reflection
+//@   props C18
+//@   nopanic
+//@   ensures x + rx == 2 * px && y + ry == 2 * py
+
+//@ func (*pathParser).reset
+//@   props C18 C07
+//@   nopanic
+//@   requires c != nil
+//@   modifies *c
+//@   ensures len(c.points) == 0 && len(c.path) == 0 && !c.inPath && c.currentX == 0 && c.currentY == 0
+
+//@ func (*pathParser).close
+//@   props C18
+//@   nopanic
+//@   requires c != nil
+//@   modifies c.path, c.path[..]
+//@   ensures fresh(c.path) || samebase(c.path, old(c.path))
+//@   ensures len(c.path) == old(len(c.path)) + 1 && c.path[len(c.path)-1].op == close && c.path[len(c.path)-1].args[0].x == c.pathStartX && c.path[len(c.path)-1].args[0].y == c.pathStartY
+//@ func (*pathParser).moveTo
+//@   props C18
+//@   nopanic
+//@   requires c != nil
+//@   modifies c.path, c.path[..]
+//@   ensures fresh(c.path) || samebase(c.path, old(c.path))
+//@   ensures len(c.path) == old(len(c.path)) + 1 && c.path[len(c.path)-1].op == moveTo && c.path[len(c.path)-1].args[0].x == x && c.path[len(c.path)-1].args[0].y == y
+//@ func (*pathParser).lineTo
+//@   props C18
+//@   nopanic
+//@   requires c != nil
+//@   modifies c.path, c.path[..]
+//@   ensures fresh(c.path) || samebase(c.path, old(c.path))
+//@   ensures len(c.path) == old(len(c.path)) + 1 && c.path[len(c.path)-1].op == lineTo && c.path[len(c.path)-1].args[0].x == x && c.path[len(c.path)-1].args[0].y == y
+//@ func (*pathParser).cubicTo
+//@   props C18
+//@   nopanic
+//@   requires c != nil
+//@   modifies c.path, c.path[..]
+//@   ensures fresh(c.path) || samebase(c.path, old(c.path))
+//@   ensures len(c.path) == old(len(c.path)) + 1 && c.path[len(c.path)-1].op == cubicTo && c.path[len(c.path)-1].args[2].x == x3 && c.path[len(c.path)-1].args[2].y == y3
+//@ func (*pathParser).quadTo
+//@   props C18
+//@   nopanic
+//@   requires c != nil
+//@   modifies c.path, c.path[..], c.currentX, c.currentY
+//@   ensures fresh(c.path) || samebase(c.path, old(c.path))
+//@   ensures len(c.path) == old(len(c.path)) + 1 && c.currentX == x2 && c.currentY == y2
+
+// relative coordinates: each value is offset by the (already absolute) previous one
+//@ func (*pathParser).valsToAbs
+//@   props C18 C07
+//@   nopanic
+//@   requires c != nil
+//@   modifies c.points[..]
+//@   loop 1 invariant 0 <= i && i <= len(c.points)
+//@   loop 1 decreases len(c.points) - i
+
+// relative coordinate groups of sz values: group g is offset by the end point of group g-1
+//@ func (*pathParser).pointsToAbs
+//@   props C18 C07
+//@   nopanic
+//@   requires c != nil && sz >= 2 && sz % 2 == 0 && len(c.points) % sz == 0
+//@   modifies c.points[..]
+//@   loop 1 invariant 0 <= j && j <= len(c.points) && j % sz == 0
+//@   loop 1 decreases len(c.points) - j
+//@   loop 2 invariant 0 <= i && i <= sz && i % 2 == 0 && 0 <= j && j + sz <= len(c.points) && j % sz == 0
+//@   loop 2 decreases sz - i
+
+//@ func (*pathParser).hasSetsOrMore
+//@   props C18 C07
+//@   nopanic
+//@   requires c != nil && sz >= 1 && (rel ==> sz >= 2 && sz % 2 == 0)
+//@   modifies c.points[..]
+//@   ensures result == (len(c.points) >= sz && len(c.points) % sz == 0)
+
+//@ func (*pathParser).getPoints
+//@   props C18 C07
+//@   nopanic
+//@   requires c != nil
+//@   modifies anything
+
+//@ func (*pathParser).reflectControlQuad
+//@   props C18
+//@   nopanic
+//@   requires c != nil
+//@   modifies c.cntlPtX, c.cntlPtY
+//@   ensures in(c.lastKey, 'q', 'Q', 't', 'T') ==> c.cntlPtX + old(c.cntlPtX) == 2 * c.currentX && c.cntlPtY + old(c.cntlPtY) == 2 * c.currentY
+//@   ensures !in(c.lastKey, 'q', 'Q', 't', 'T') ==> c.cntlPtX == c.currentX && c.cntlPtY == c.currentY
+
+// SVG 1.1 §8.3.6: the first control point of S/s is the reflection of the previous second
+// control point only after C, c, S or s; otherwise it is the current point
+//@ func (*pathParser).reflectControlCube
+//@   props C18
+//@   nopanic
+//@   requires c != nil
+//@   modifies c.cntlPtX, c.cntlPtY
+//@   ensures in(c.lastKey, 'c', 'C', 's', 'S') ==> c.cntlPtX + old(c.cntlPtX) == 2 * c.currentX && c.cntlPtY + old(c.cntlPtY) == 2 * c.currentY
+//@   ensures !in(c.lastKey, 'c', 'C', 's', 'S') ==> c.cntlPtX == c.currentX && c.cntlPtY == c.currentY
+
+//@ func ellipsePrime
+//@   props C18
+//@   nopanic
+//@ func ellipsePointAt
+//@   props C18
+//@   nopanic
+//@ func findEllipseCenter
+//@   props C18
+//@   nopanic
+//@   requires ra != nil && rb != nil
+//@   modifies *ra, *rb
+
+// the arc ends exactly at the end point given in the path data
+//@ func (*pathParser).addArc
+//@   props C18
+//@   nopanic
+//@   requires p != nil && len(points) >= 7
+//@   modifies p.path, p.path[..]
+//@   ensures lx == points[5] && ly == points[6]
+//@   ensures fresh(p.path) || samebase(p.path, old(p.path))
+//@   loop 1 invariant (fresh(p.path) || samebase(p.path, old(p.path))) && 1 <= i && i <= segs + 1 && segs >= 1 && len(points) >= 7 && (i == segs + 1 ==> lx == points[5] && ly == points[6])
+//@   loop 1 decreases segs + 1 - i
+
+//@ func (*pathParser).addArcFromA
+//@   props C18
+//@   nopanic
+//@   requires c != nil && len(points) >= 7
+//@   modifies c.path, c.path[..], c.currentX, c.currentY, points[..]
+//@   ensures[ends-at-given-point] c.currentX == old(points[5]) && c.currentY == old(points[6])
